@@ -50,6 +50,7 @@ type RequestContext struct {
 
 	savedBody any
 	outputs   map[string]any
+	hmdlReq   *heimdall.Request
 }
 
 func NewRequestContext(ctx context.Context, req *envoy_auth.CheckRequest) *RequestContext {
@@ -106,12 +107,18 @@ func canonicalizeHeaders(headers map[string]string) map[string]string {
 }
 
 func (r *RequestContext) Request() *heimdall.Request {
-	return &heimdall.Request{
-		RequestFunctions:  r,
-		Method:            r.reqMethod,
-		URL:               &heimdall.URL{URL: *r.reqURL},
-		ClientIPAddresses: r.ips,
+	// the very same object has to be returned on each call. Otherwise, the values captured from
+	// the path while looking up the rule are not visible to the pipeline of that rule
+	if r.hmdlReq == nil {
+		r.hmdlReq = &heimdall.Request{
+			RequestFunctions:  r,
+			Method:            r.reqMethod,
+			URL:               &heimdall.URL{URL: *r.reqURL},
+			ClientIPAddresses: r.ips,
+		}
 	}
+
+	return r.hmdlReq
 }
 
 func (r *RequestContext) Headers() map[string]string { return r.reqHeaders }
